@@ -22,10 +22,10 @@ def fmtGoJSON (line ts : Bytes) : String :=
   | none => "gojson=err tseq=0"
 
 /-- spec for one destination's bytes -/
-def specBytes (dest : String) (q : Quoter) (isPrint : Nat → Bool) (written ts : Bytes) (lvl : Nat) (m : Bytes)
+def specBytes (dest : String) (q : Option Quoter) (isPrint : Nat → Bool) (written ts : Bytes) (lvl : Nat) (m : Bytes)
     (tseq : Bool) (modelLine : Bytes) : String :=
   let bad (why : String) : String :=
-    if q == .strconvQuote && goQuoteNonJSON isPrint m && written == modelLine then
+    if q == some .strconvQuote && goQuoteNonJSON isPrint m && written == modelLine then
       s!"KNOWN goQuoteNonJSON {dest}: {why} (message has a control byte / invalid UTF-8 / non-printable rune that strconv.Quote writes as \\a \\v \\x.. or \\U........)"
     else s!"FAIL {dest}: {why}"
   match parseLine written with
@@ -43,12 +43,14 @@ def step (_ : Unit) (op impl : String) : Unit × DrvOut :=
     match lvl.toNat?, Hex.decode msgH, Hex.decode tsH, parseNP npS with
     | some lvl, some m, some ts, some np =>
       let isPrint := mkIsPrint np
-      let qs := MtxVerif.Gen.C37.stdoutQuoter
-      let qf := MtxVerif.Gen.C37.fileQuoter
-      let lineS := lineOf (quoteWith qs isPrint m) ts lvl
-      let lineF := lineOf (quoteWith qf isPrint m) ts lvl
+      -- `none` = the extractor did not recognise the routine: no prediction ("-"), spec only
+      let qs := MtxVerif.Gen.C37.stdoutQuoter?
+      let qf := MtxVerif.Gen.C37.fileQuoter?
+      let lineS := lineOf (quoteWith (qs.getD .jsonMarshal) isPrint m) ts lvl
+      let lineF := lineOf (quoteWith (qf.getD .jsonMarshal) isPrint m) ts lvl
       -- `Logger.Log` drops records below `Logger.Level` (the harness runs with Level = Debug = 1)
-      let model := if lvl < 1 then "out=- file=same gojson=err tseq=0" else
+      let model := if lvl < 1 then "out=- file=same gojson=err tseq=0"
+        else if qs.isNone || qf.isNone then "-" else
         s!"out={Hex.encode lineS} file={if lineF == lineS then "same" else Hex.encode lineF} {fmtGoJSON lineS ts}"
       let spec :=
         if lvl < 1 || lvl > 4 then "ok"       -- not a level of the logger: outside the property
